@@ -27,11 +27,12 @@ pub enum Val {
   Record(i32, String), // {x: f64, y: string}
   Set(Vec<i32>),
   Table(Vec<i32>),     // | x<f64> y<f64> | rows…  (pairs)
+  ColF(Vec<i32>),      // f64 column vector
 }
 
 impl Val {
   fn family(&self) -> &'static str {
-    match self { Val::F(_) => "f64", Val::U8(_) => "u8", Val::Str(_) => "string", Val::Bool(_) => "bool", Val::Row(_) => "row", Val::Col(_) => "col", Val::Mat(_) => "mat", Val::Tuple(..) => "tuple", Val::Record(..) => "record", Val::Set(_) => "set", Val::Table(_) => "table" }
+    match self { Val::F(_) => "f64", Val::U8(_) => "u8", Val::Str(_) => "string", Val::Bool(_) => "bool", Val::Row(_) => "row", Val::Col(_) => "col", Val::Mat(_) => "mat", Val::Tuple(..) => "tuple", Val::Record(..) => "record", Val::Set(_) => "set", Val::Table(_) => "table", Val::ColF(_) => "colf" }
   }
   fn text(&self) -> String {
     match self {
@@ -46,6 +47,7 @@ impl Val {
       Val::Record(n, s) => format!("{{x: {}.0, y: \"{}\"}}", n, s),
       Val::Set(v) => format!("{{{}}}", v.iter().map(|x| format!("{}.0", x)).collect::<Vec<_>>().join(", ")),
       Val::Table(v) => format!("| x<f64> y<f64> | {} |", v.chunks(2).map(|p| format!("{} {}", p[0], p[1])).collect::<Vec<_>>().join(" | ")),
+      Val::ColF(v) => format!("[{}]", v.iter().map(|x| format!("{}.0", x)).collect::<Vec<_>>().join("; ")),
     }
   }
 }
@@ -61,6 +63,8 @@ pub enum St {
   IndexAssign { name: usize, ix: u8, val: i32 },
   RangeAssign { name: usize, hi: u8, val: i32 },
   OpAssign { name: usize, op: u8, val: i32 },
+  /// `a op= b` with another *name* on the right: the right-hand name must come out unchanged
+  OpAssignFrom { name: usize, op: u8, src: usize },
   FieldAssign { name: usize, val: i32 },
   Destructure { names: Vec<usize>, arity: usize, from: Option<usize> },
   UseUndefined { name: usize },
@@ -82,6 +86,7 @@ fn val_strategy() -> BoxedStrategy<Val> {
     2 => (0i32..9, prop_oneof![Just("p"), Just("q")]).prop_map(|(n, s)| Val::Record(n, s.to_string())),
     1 => proptest::collection::vec(0i32..9, 1..=3).prop_map(|mut v| { v.sort(); v.dedup(); Val::Set(v) }),
     1 => proptest::collection::vec(0i32..9, 4).prop_map(Val::Table),
+    2 => proptest::collection::vec(1i32..9, 2..=3).prop_map(Val::ColF),
   ].boxed()
 }
 
@@ -97,6 +102,7 @@ fn st_strategy() -> BoxedStrategy<St> {
     4 => (n(), 0u8..6, 0i32..9).prop_map(|(name, ix, val)| St::IndexAssign { name, ix, val }),
     2 => (n(), 2u8..7, 0i32..9).prop_map(|(name, hi, val)| St::RangeAssign { name, hi, val }),
     3 => (n(), 0u8..4, 0i32..9).prop_map(|(name, op, val)| St::OpAssign { name, op, val }),
+    3 => (n(), 0u8..4, n()).prop_map(|(name, op, src)| St::OpAssignFrom { name, op, src }),
     2 => (n(), 0i32..9).prop_map(|(name, val)| St::FieldAssign { name, val }),
     2 => (proptest::collection::vec(n(), 1..=3), 1usize..=3, proptest::option::of(n())).prop_map(|(names, arity, from)| St::Destructure { names, arity, from }),
     1 => n().prop_map(|name| St::UseUndefined { name }),
@@ -106,7 +112,7 @@ fn st_strategy() -> BoxedStrategy<St> {
 impl Prop for C05 {
   type Case = Case;
   const ID: &'static str = "C05";
-  fn budget(t: Tier) -> u32 { t.pick(3_000, 60_000) }
+  fn budget(t: Tier) -> u32 { t.pick(12_000, 200_000) }
   fn strategy(_t: Tier, k: &Known) -> BoxedStrategy<Case> {
     let k_alias = k.has("C05|alias|probe");
     (proptest::collection::vec((st_strategy(), 0u8..8), 4..=25)).prop_map(move |v| {
@@ -119,7 +125,7 @@ impl Prop for C05 {
       for (st, dice) in v {
         let shared = |groups: &BTreeMap<usize, usize>, n: usize| groups.get(&n).map(|g| groups.values().filter(|x| *x == g).count() > 1).unwrap_or(false);
         let st2 = match &st {
-          St::Assign { name, .. } | St::AssignFrom { name, .. } | St::IndexAssign { name, .. } | St::RangeAssign { name, .. } | St::OpAssign { name, .. } | St::FieldAssign { name, .. }
+          St::Assign { name, .. } | St::AssignFrom { name, .. } | St::IndexAssign { name, .. } | St::RangeAssign { name, .. } | St::OpAssign { name, .. } | St::OpAssignFrom { name, .. } | St::FieldAssign { name, .. }
             if k_alias && dice != 0 && shared(&groups, *name) => St::UseUndefined { name: *name },
           _ => st.clone(),
         };
@@ -138,8 +144,8 @@ impl Prop for C05 {
   }
   fn rule() -> &'static str {
     "case = history of 4-25 statements over names {a..e} executed one per interpret() call in one session: define / mutable define (11 \
-     value families: scalars of two kinds, string, bool, row/column/general matrix, tuple, record, set, table), define from another name, \
-     from an expression, from an index, assign, assign from name, indexed assign, op-assign, record-field assign, tuple destructure \
+     value families: scalars of two kinds, string, bool, row/column (u8 and f64)/general matrix, tuple, record, set, table), define from another name, \
+     from an expression, from an index, assign, assign from name, indexed assign, op-assign with a literal and with another name on the right, record-field assign, tuple destructure \
      (right/wrong arity, names already defined), use of an undefined name — valid and invalid mixed. After every statement the full symbol \
      snapshot (values + mutability) is compared with the previous one and with a reference store. Non-trivial = history contains a \
      define-from-name later followed by a mutation of either name, or a failing statement after ≥2 successful ones; distinct key = \
@@ -168,6 +174,7 @@ fn render(s: &St) -> String {
     St::IndexAssign { name, ix, val } => format!("{}[{}] = {}.0", nm(*name), ix, val),
     St::RangeAssign { name, hi, val } => format!("{}[1..={}] = {}.0", nm(*name), hi, val),
     St::OpAssign { name, op, val } => format!("{} {} {}.0", nm(*name), ["+=", "-=", "*=", "/="][*op as usize % 4], val),
+    St::OpAssignFrom { name, op, src } => format!("{} {} {}", nm(*name), ["+=", "-=", "*=", "/="][*op as usize % 4], nm(*src)),
     St::FieldAssign { name, val } => format!("{}.x = {}.0", nm(*name), val),
     St::Destructure { names, arity, from } => {
       let lhs = format!("({})", names.iter().map(|n| nm(*n)).collect::<Vec<_>>().join(", "));
@@ -178,7 +185,7 @@ fn render(s: &St) -> String {
 }
 
 fn rule_name(s: &St) -> &'static str {
-  match s { St::Define { mutable: false, .. } => "def", St::Define { .. } => "mdef", St::DefineFrom { .. } => "def-from", St::DefineExpr { .. } => "def-expr", St::DefineIndex { .. } => "def-index", St::Assign { .. } => "assign", St::AssignFrom { .. } => "assign-from", St::IndexAssign { .. } => "index-assign", St::RangeAssign { .. } => "range-assign", St::OpAssign { .. } => "op-assign", St::FieldAssign { .. } => "field-assign", St::Destructure { .. } => "destructure", St::UseUndefined { .. } => "undefined-rhs" }
+  match s { St::Define { mutable: false, .. } => "def", St::Define { .. } => "mdef", St::DefineFrom { .. } => "def-from", St::DefineExpr { .. } => "def-expr", St::DefineIndex { .. } => "def-index", St::Assign { .. } => "assign", St::AssignFrom { .. } => "assign-from", St::IndexAssign { .. } => "index-assign", St::RangeAssign { .. } => "range-assign", St::OpAssign { .. } => "op-assign", St::OpAssignFrom { .. } => "op-assign-from", St::FieldAssign { .. } => "field-assign", St::Destructure { .. } => "destructure", St::UseUndefined { .. } => "undefined-rhs" }
 }
 
 type Store = BTreeMap<String, (bool, RVal)>;
@@ -224,8 +231,8 @@ fn check(c: &Case) -> Verdict {
         let d = if defined(*name) { Demand::MustErr("VariableAlreadyDefined") } else if src_undefined { Demand::MustErr("UndefinedVariable") } else { Demand::Open };
         (vec![nm(*name).to_string()], d)
       }
-      St::Assign { name, .. } | St::IndexAssign { name, .. } | St::RangeAssign { name, .. } | St::OpAssign { name, .. } | St::FieldAssign { name, .. } | St::AssignFrom { name, .. } => {
-        let d = if !defined(*name) { Demand::MustErr("UndefinedVariable") } else if !mutable(*name) { Demand::MustErr("NotMutable") } else if let St::AssignFrom { src, .. } = s { if !defined(*src) { Demand::MustErr("UndefinedVariable") } else { Demand::Open } } else { Demand::Open };
+      St::Assign { name, .. } | St::IndexAssign { name, .. } | St::RangeAssign { name, .. } | St::OpAssign { name, .. } | St::OpAssignFrom { name, .. } | St::FieldAssign { name, .. } | St::AssignFrom { name, .. } => {
+        let d = if !defined(*name) { Demand::MustErr("UndefinedVariable") } else if !mutable(*name) { Demand::MustErr("NotMutable") } else if let St::AssignFrom { src, .. } | St::OpAssignFrom { src, .. } = s { if !defined(*src) { Demand::MustErr("UndefinedVariable") } else { Demand::Open } } else { Demand::Open };
         (vec![nm(*name).to_string()], d)
       }
       St::Destructure { names, from, .. } => {
@@ -310,6 +317,7 @@ fn check(c: &Case) -> Verdict {
             if let Some(f) = from { for n in names { derived.insert(nm(*n).to_string(), "destructure-from-name".to_string()); } derived.entry(nm(*f).to_string()).or_insert("destructure-from-name".to_string()); had_define_from = true; }
           }
           St::Assign { .. } | St::IndexAssign { .. } | St::RangeAssign { .. } | St::OpAssign { .. } | St::FieldAssign { .. } => { if had_define_from { nontrivial = true; } }
+          St::OpAssignFrom { name, src, .. } => { if name != src { nontrivial = true; } }
           _ => {}
         }
       }
@@ -328,7 +336,7 @@ fn check(c: &Case) -> Verdict {
 fn family_of_change(s: &St, prev: &Store) -> String {
   match s {
     St::Destructure { .. } => "destructure".into(),
-    St::IndexAssign { name, .. } | St::RangeAssign { name, .. } | St::OpAssign { name, .. } | St::Assign { name, .. } | St::FieldAssign { name, .. } => prev.get(nm(*name)).map(|x| x.1.kind()).unwrap_or_else(|| "-".into()).chars().take(12).collect(),
+    St::IndexAssign { name, .. } | St::RangeAssign { name, .. } | St::OpAssign { name, .. } | St::OpAssignFrom { name, .. } | St::Assign { name, .. } | St::FieldAssign { name, .. } => prev.get(nm(*name)).map(|x| x.1.kind()).unwrap_or_else(|| "-".into()).chars().take(12).collect(),
     _ => "-".into(),
   }
 }
